@@ -475,3 +475,87 @@ Example C20_nonvacuous_opticom :
 Proof.
   cbv zeta. repeat split; try (apply forallb2_Qc_eqb_eq; vm_compute; reflexivity); try (apply Qc_is_canon; vm_compute; reflexivity).
 Qed.
+
+(* ======================================================================================================================
+   Phase 4 (1): the gradient Gram matrix of the hat basis without boundary points is positive DEFINITE in every dimension
+   (Proofs/RegressPD.v: 1D stiffness form = sum of squared differences incl. the boundary cells; d dimensions through the
+   sum-of-squares representation of Proofs/RegressKron.v / KronSOS.v).  Hence with regularization_matrix = 'C' and lambda > 0
+   the regularised least-squares problem has EXACTLY ONE minimiser, for every design matrix. *)
+From SG Require Import Proofs.RegressPD.
+
+Theorem C20_stiffness_1d_positive_definite : forall xs v,
+  strictly_inc xs -> length v = length (windows xs) -> Exists (fun x => x <> 0) v ->
+  0 < quad (sym_matrix grad1_spec 0 (windows xs)) v.
+Proof. exact grad_1d_positive_definite. Qed.
+Theorem C20_C_positive_definite_nd : forall stripes, stripes <> [] -> Forall good_stripe stripes ->
+  pdef (length (grid_hats stripes)) (C_matrix_dw_spec stripes).
+Proof. exact C_matrix_dw_spec_pd. Qed.
+Theorem C20_C_uniform_positive_definite_nd : forall lv, lv <> [] -> Forall (fun l => (1 <= l)%Z) lv ->
+  pdef (length (index_list lv)) (C_matrix_uniform false lv).
+Proof. exact C_matrix_uniform_pd. Qed.
+Theorem C20_smooth_minimiser_unique_uniform : forall lv A y lam alpha beta,
+  lv <> [] -> Forall (fun l => (1 <= l)%Z) lv ->
+  let n := length (index_list lv) in let C := C_matrix_uniform false lv in
+  wf_matrix n A -> A <> [] -> length y = length A -> length alpha = n -> length beta = n -> 0 < lam ->
+  matvec (left_matrix A lam true C) alpha = right_vector A y ->
+  J A y lam C beta <= J A y lam C alpha -> beta = alpha.
+Proof. exact smooth_minimiser_unique_uniform. Qed.
+Theorem C20_smooth_minimiser_unique_dimension_wise : forall stripes A y lam alpha beta,
+  stripes <> [] -> Forall good_stripe stripes ->
+  let n := length (grid_hats stripes) in let C := C_matrix_dw_spec stripes in
+  wf_matrix n A -> A <> [] -> length y = length A -> length alpha = n -> length beta = n -> 0 < lam ->
+  matvec (left_matrix A lam true C) alpha = right_vector A y ->
+  J A y lam C beta <= J A y lam C alpha -> beta = alpha.
+Proof. exact smooth_minimiser_unique_dimension_wise. Qed.
+Print Assumptions C20_stiffness_1d_positive_definite.
+Print Assumptions C20_C_positive_definite_nd.
+Print Assumptions C20_C_uniform_positive_definite_nd.
+Print Assumptions C20_smooth_minimiser_unique_uniform.
+Print Assumptions C20_smooth_minimiser_unique_dimension_wise.
+
+Example C20_nonvacuous_pd :
+  [2; 1; 2]%Z <> [] /\ Forall (fun l => (1 <= l)%Z) [2; 1; 2]%Z /\
+  0 < quad (C_matrix_uniform false [1; 2]%Z) [qq 1 1; qq (-2) 1; qq 1 1] /\
+  quad (C_matrix_uniform false [1; 2]%Z) [qq 1 1; qq (-2) 1; qq 1 1] = qq 88 3.
+Proof.
+  split; [discriminate | split; [repeat constructor; lia | split]].
+  - unfold Qclt. vm_compute. reflexivity.
+  - apply Qc_is_canon. vm_compute. reflexivity.
+Qed.
+
+(* Phase 4 (2): Opticom option 1 (Garcke), standard combination technique: the assembly of the system is modelled exactly
+   (Model/Regress.v: garcke_matrix / garcke_vector / garcke_reg / garcke_entry AS CODED - sum_C_matrix_with_alphas indexes the
+   interpolated values with the one-dimensional point indices and uses levelvec[k] in all mass factors; entry point 10 compares
+   the matrix and vector of build_matrix_opticom with the model on every run).  The coefficients are lstsq(matrix, vector)
+   (certified by opticom1_certified on the normal equations of that least-squares problem) followed by opticom_finish. *)
+Theorem C20_garcke_matrix_symmetric : forall grids vdata lam, symmetricM (length grids) (garcke_matrix grids vdata lam).
+Proof. exact garcke_matrix_symmetric. Qed.
+Theorem C20_opticom1_certified_sound : forall M raw tol, opticom1_certified M raw tol = true ->
+  let v := garcke_vector M in
+  Forall2 (fun row ri => Qc_abs (dotQ row raw - ri)
+                         <= tol * Qc_max (residual_scale (left_matrix M 0 false []) (right_vector M v) raw) (residual_floor M v))
+          (left_matrix M 0 false []) (right_vector M v).
+Proof. exact opticom1_certified_sound. Qed.
+Theorem C20_opticom1_exact_minimiser : forall n M raw beta,
+  let v := garcke_vector M in
+  wf_matrix n M -> M <> [] -> length v = length M -> length raw = n -> length beta = n ->
+  matvec (left_matrix M 0 false []) raw = right_vector M v ->
+  sqnorm (vsub (matvec M raw) v) <= sqnorm (vsub (matvec M beta) v).
+Proof. exact opticom1_exact_minimiser. Qed.
+(* and the coefficients written back sum to one for every raw result: C20_opticom_coefficients_sum_to_one /
+   C20_opticom_after_combination_scheme_sums_to_one above apply to option 1 unchanged *)
+Print Assumptions C20_garcke_matrix_symmetric.
+Print Assumptions C20_opticom1_certified_sound.
+Print Assumptions C20_opticom1_exact_minimiser.
+
+(* non-vacuity: one dimension, the two grids of levels 1 and 2, three validation points, lambda_opticom = 1/8 *)
+Example C20_nonvacuous_garcke :
+  let grids := [([1%Z], [qq 1 1]); ([2%Z], [qq 1 1; qq 2 1; qq 1 1])] in
+  let M := garcke_matrix grids [[qq 1 4]; [qq 1 2]; [qq 3 4]] (qq 1 8) in
+  length M = 2%nat /\ garcke_vector M = [nth 0 (nth 0 M []) 0; nth 1 (nth 1 M []) 0] /\
+  nth 1 (nth 0 M []) 0 = nth 0 (nth 1 M []) 0 /\ nth 0 (nth 0 M []) 0 <> 0 /\
+  garcke_reg [1%Z] [2%Z] [qq 1 1] [qq 1 1; qq 2 1; qq 1 1] <> 0.
+Proof.
+  cbv zeta. split; [reflexivity | split; [reflexivity | split; [apply Qc_is_canon; vm_compute; reflexivity | split]]];
+    intro E; apply Qc_eq_Qeq in E; vm_compute in E; discriminate.
+Qed.
